@@ -50,8 +50,30 @@ def run_job(job):
                 out.append(((A, B), (1, rng.choice([1, -1, 2]))))
         return out
     simples = simple_elements()
+    variants = job.get('storage_variants', False)
+
+    def stored(mv, zero=0.0):
+        """C08: the same element in another storage layout (permutation, explicit zeros for extra blades, full canonical /
+        full binary layout); only when the job asks for storage variants."""
+        if not variants:
+            return mv
+        how = rng.choice(['perm', 'pad', 'pad', 'fullc', 'fullb'] if d <= 4 else ['perm', 'pad', 'pad'])
+        if how == 'fullc':
+            return mv.asfullmv()
+        if how == 'fullb':
+            return mv.asfullmv(canonical=False)
+        keys, vals = list(mv.keys()), list(mv.values())
+        if how == 'pad':
+            rest = [b for b in range(nb) if b not in keys]
+            for b in rng.sample(rest, min(len(rest), rng.randint(1, 3))):
+                keys.append(b)
+                z = vals[0] * 0 if vals else zero          # a zero of the operand's own coefficient type / shape
+                vals.append(z)
+        order = list(range(len(keys)))
+        rng.shuffle(order)
+        return MultiVector.fromkeysvalues(alg, tuple(keys[i] for i in order), [vals[i] for i in order])
     for ci in range(job['n']):
-        kind = rng.choice(['sqrt', 'sqrt', 'powhalf', 'norm', 'normalized', 'exp', 'exp', 'exp', 'expc'])
+        kind = rng.choice(job.get('kinds') or ['sqrt', 'sqrt', 'powhalf', 'norm', 'normalized', 'exp', 'exp', 'exp', 'expc'])
         eid = f"{job['prefix']}:{ci}"
         base = {'id': eid, 'kind': 'cert', 'cert': kind, 'raised': '', 'x': {'keys': [], 'coefs': []}, 'r': {'keys': [], 'coefs': []},
                 'X': {'keys': [], 'coefs': []}, 'F': {'keys': [], 'coefs': []}, 'N': 0, 'g': 1, 'tol': 0, 'vtype': 'float', 'sq': ''}
@@ -74,6 +96,7 @@ def run_job(job):
                 if not any(float(v) > 0 for k, v in zip(xq.keys(), xq.values()) if k == 0):
                     continue                                            # outside the domain: positive scalar part
                 try:
+                    xf = stored(xf)
                     r = xf.sqrt() if kind == 'sqrt' else xf ** 0.5
                     base['r'] = ratmv(r)
                 except K.EncodeError:
@@ -96,6 +119,7 @@ def run_job(job):
                 xf = MultiVector.fromkeysvalues(alg, keys, [float(v) for v in vals])
                 base['x'] = ratmv(xq)
                 try:
+                    xf = stored(xf)
                     r = xf.norm() if kind == 'norm' else xf.normalized()
                     base['r'] = ratmv(r)
                 except K.EncodeError:
@@ -115,6 +139,7 @@ def run_job(job):
                 x = MultiVector.fromkeysvalues(alg, keys, [complex(z[0], z[1]) / g])
                 r = None
                 try:
+                    x = stored(x)
                     r = x.exp()
                 except Exception as e:   # noqa: BLE001
                     base['raised'] = type(e).__name__
@@ -133,7 +158,7 @@ def run_job(job):
                 if max(abs(v) for v in X) * len(X) > g // 2 + (1 if g == 4 else 0):
                     g, N = 4, 6
                     X = [max(-1, min(1, v)) for v in X]
-                vtype = rng.choice(['float', 'float', 'int_over', 'numpy1', 'numpy3', 'sympy'])
+                vtype = rng.choice(job.get('vtypes') or ['float', 'float', 'int_over', 'numpy1', 'numpy3', 'sympy'])
                 S = math.factorial(N) * g ** N
                 sqv = sum(sgn(k, k) * v * v for k, v in zip(keys, X))
                 base.update({'X': {'keys': [int(k) for k in keys], 'coefs': [int(v) for v in X]}, 'N': N, 'g': g, 'vtype': vtype,
@@ -157,6 +182,7 @@ def run_job(job):
                     x = MultiVector.fromkeysvalues(alg, keys, [sympy.Rational(v, g) * t for v in X])
                 r = None
                 try:
+                    x = stored(x)
                     r = x.exp()
                 except Exception as e:   # noqa: BLE001
                     base['raised'] = type(e).__name__
@@ -186,6 +212,8 @@ def run_job(job):
 
 def run_jobs(jobs, procs=16):
     import multiprocessing as mp
+    import kdriver as _K
+    jobs = _K.filter_buildable(jobs)
     if not jobs:
         return []
     with mp.get_context('fork').Pool(min(procs, len(jobs))) as pool:
